@@ -450,13 +450,14 @@ _RELATIVE = "relative"  # ./foo, ../foo, ., .., or contains /
 _BARE = "bare"  # everything else (command names, flags, args)
 
 
-def _classify_token(token: str) -> str:
+def _classify_token(token: str, *, allow_url: bool = True) -> str:
     """Classify a token into one of the path kinds.
 
     Classification is pure - no side effects, no cwd needed.
     Order matters: earlier checks take precedence.
+    A redirect target is always a file name (allow_url=False): "a://b" is the file a:/b.
     """
-    if "://" in token:
+    if allow_url and "://" in token:
         return _URL
     if token.startswith("$"):
         return _VARIABLE
@@ -487,7 +488,7 @@ def _expand_token(token: str, cwd: Path, *, force_path: bool = False) -> str:
     Returns:
         Expanded token string
     """
-    kind = _classify_token(token)
+    kind = _classify_token(token, allow_url=not force_path)
     home = Path.home()
     if kind == _URL:
         return token
@@ -549,7 +550,10 @@ def _normalize_pattern(pattern: str, cwd: Path) -> str:
 
 def _normalize_path(path: str, cwd: Path) -> str:
     """Normalize a redirect target path (strip trailing /, force as path)."""
-    return _expand_token(path.rstrip("/"), cwd, force_path=True)
+    stripped = path.rstrip("/")
+    if path and not stripped:
+        stripped = "/"  # "/" and "//" are the root directory, not the empty (cwd-relative) path
+    return _expand_token(stripped, cwd, force_path=True)
 
 
 def _glob_to_regex(pattern: str) -> re.Pattern:
